@@ -21,10 +21,10 @@ import (
 )
 
 type Msg struct {
-	Lens    []int  `json:"lens"`    // encoded length of each package
-	Kinds   []int  `json:"kinds"`   // package kind per package
-	UseSend bool   `json:"useSend"` // last package via SendPackage (else QueuePackage + SendRemainingPackets)
-	Type    byte   `json:"type"`    // header type
+	Lens    []int `json:"lens"`    // encoded length of each package
+	Kinds   []int `json:"kinds"`   // package kind per package
+	UseSend bool  `json:"useSend"` // last package via SendPackage (else QueuePackage + SendRemainingPackets)
+	Type    byte  `json:"type"`    // header type
 }
 
 type Case struct {
@@ -33,6 +33,39 @@ type Case struct {
 	Size2 int  `json:"size2,omitempty"` // 0: no second message; else packet size in force for M2
 	M2    *Msg `json:"m2,omitempty"`
 	Chan  int  `json:"chan,omitempty"` // 0: channel 0; 1: a logical channel (id > 0, set-up acknowledged by the peer)
+	// history: the flush of M1 fails - "ctx": SendRemainingPackets with an expired context, "write": the
+	// transport refuses M1's first write, "ctx-send": SendPackage with an expired context; M2 must then be a
+	// well-formed message of its own
+	Fault string `json:"fault,omitempty"`
+}
+
+// streamPkg is a caller-defined package that streams its n bytes through ONE
+// reused scratch buffer (as io.CopyBuffer or a bufio.Writer would): after
+// every WriteBytes the buffer is refilled with the next chunk.
+type streamPkg struct{ n, scratch int }
+
+func (p *streamPkg) content(i int) byte              { return byte(0x30 + (i*7+i/251)%77) }
+func (p *streamPkg) ReadFrom(tds.BytesChannel) error { return fmt.Errorf("streamPkg is write-only") }
+func (p *streamPkg) String() string                  { return fmt.Sprintf("streamPkg(%d via %d)", p.n, p.scratch) }
+func (p *streamPkg) WriteTo(ch tds.BytesChannel) error {
+	buf := make([]byte, p.scratch)
+	for off := 0; off < p.n; {
+		k := p.n - off
+		if k > len(buf) {
+			k = len(buf)
+		}
+		for i := 0; i < k; i++ {
+			buf[i] = p.content(off + i)
+		}
+		if err := ch.WriteBytes(buf[:k]); err != nil {
+			return err
+		}
+		off += k
+	}
+	for i := range buf {
+		buf[i] = 0xEE // the buffer goes back to its owner
+	}
+	return nil
 }
 
 var h *hlib.H
@@ -53,6 +86,9 @@ func mkPkg(k, n int) tds.Package {
 	case k == 3 && n == 5:
 		return tds.NewMsgPackage(tds.TDS_MSG_HASARGS, tds.TDS_MSG_SEC_LOGPWD3)
 	}
+	if k == 4 || k == 5 {
+		return &streamPkg{n: n, scratch: map[int]int{4: 4096, 5: 700}[k]}
+	}
 	p := tds.NewTokenlessPackage()
 	b := make([]byte, n)
 	for i := range b {
@@ -70,9 +106,18 @@ type sent struct {
 	err    error
 }
 
-func sendMsg(ctx context.Context, ch *tds.Channel, pipe *vrt.Pipe, m Msg, size int) sent {
+func sendMsg(ctx context.Context, ch *tds.Channel, pipe *vrt.Pipe, m Msg, size int, fault string) sent {
 	s := sent{typ: m.Type, size: size}
 	before := len(pipe.Writes())
+	flushCtx := ctx
+	switch fault {
+	case "ctx", "ctx-send":
+		c2, cancel := context.WithCancel(ctx)
+		cancel()
+		flushCtx = c2
+	case "write":
+		pipe.FailWrite(before, 0, vrt.ErrReset)
+	}
 	ch.CurrentHeaderType = tds.PacketHeaderType(m.Type)
 	for i, n := range m.Lens {
 		pkg := mkPkg(m.Kinds[i], n)
@@ -82,15 +127,27 @@ func sendMsg(ctx context.Context, ch *tds.Channel, pipe *vrt.Pipe, m Msg, size i
 		}
 		s.want = append(s.want, enc...)
 		last := i == len(m.Lens)-1
-		if last && m.UseSend {
+		flushed := false
+		if last && fault == "ctx-send" {
+			s.err = ch.SendPackage(flushCtx, pkg) // the library's own queue-and-flush call, context already expired
+			flushed = true
+		} else if last && m.UseSend && fault != "ctx" {
 			s.err = ch.SendPackage(ctx, pkg)
+			flushed = true
 		} else {
 			s.err = ch.QueuePackage(ctx, pkg)
 			if s.err == nil && last {
-				s.err = ch.SendRemainingPackets(ctx)
+				s.err = ch.SendRemainingPackets(flushCtx)
+				flushed = true
 			}
 		}
 		if s.err != nil {
+			if fault != "" && !flushed {
+				// the statement speaks of messages that are queued AND flushed: the caller ends its
+				// failed message with the flush call (what a failed QueuePackage leaves behind when
+				// the caller never flushes is not specified)
+				ch.SendRemainingPackets(flushCtx)
+			}
 			break
 		}
 	}
@@ -168,7 +225,7 @@ func execute(c Case) (res result, x *vrt.Exec) {
 				return
 			}
 		}
-		res.msgs = append(res.msgs, sendMsg(ctx, ch, pipe, c.M1, c.Size1))
+		res.msgs = append(res.msgs, sendMsg(ctx, ch, pipe, c.M1, c.Size1, c.Fault))
 		if c.M2 != nil {
 			if c.Size2 != c.Size1 {
 				if err := setSize(ctx, ch0, pipe, conn, c.Size2); err != nil {
@@ -176,7 +233,7 @@ func execute(c Case) (res result, x *vrt.Exec) {
 					return
 				}
 			}
-			res.msgs = append(res.msgs, sendMsg(ctx, ch, pipe, *c.M2, c.Size2))
+			res.msgs = append(res.msgs, sendMsg(ctx, ch, pipe, *c.M2, c.Size2, ""))
 		}
 	})
 	return
@@ -211,6 +268,12 @@ func check(c Case, res result, x *vrt.Exec) {
 		which := fmt.Sprintf("message %d (%d bytes, packet size %d, body %d)", mi+1, len(s.want), s.size, body)
 		if mi == 1 && c.Size2 != c.Size1 {
 			cls += "|after-resize"
+		}
+		if c.Fault != "" {
+			if mi == 0 {
+				continue // the failed message: whatever left the client before the failure is the peer's problem
+			}
+			cls += "|after-failed-flush|" + c.Fault
 		}
 		if s.err != nil {
 			h.Violate("C01|send-error|"+cls, fmt.Sprintf("%+v: %s: send returned %v", c, which, s.err), c)
@@ -437,6 +500,53 @@ func main() {
 				m2 := Msg{Lens: []int{body + 1}, Kinds: []int{1}, UseSend: !us, Type: 1}
 				run(Case{Size1: P, M1: m1, Size2: P, M2: &m2, Chan: 1})
 				h.Section("logical-channel", 1)
+			}
+		}
+	}
+	// part 2c: caller-defined packages that stream through one reused buffer (kinds 4, 5)
+	for _, P := range []int{256, 512, 513, 2048, 4096} {
+		body := P - 8
+		for _, L := range append(lengths(body, 3), 5*body+3, 9000) {
+			idx++
+			if !h.Mine(idx) {
+				continue
+			}
+			for _, k := range []int{4, 5} {
+				for _, us := range []bool{false, true} {
+					run(Case{Size1: P, M1: Msg{Lens: []int{L}, Kinds: []int{k}, UseSend: us, Type: 15}})
+					if L > 7 {
+						m2 := Msg{Lens: []int{L - 3}, Kinds: []int{k}, UseSend: !us, Type: 1}
+						run(Case{Size1: P, M1: Msg{Lens: []int{3, L - 3}, Kinds: []int{0, k}, UseSend: us, Type: 15}, Size2: P, M2: &m2})
+					}
+					h.Section("streaming-packages", 1)
+				}
+			}
+		}
+	}
+	// part 2d: history with a failed flush: the next message on the channel is a message of its own
+	for _, P := range []int{256, 512, 4096} {
+		body := P - 8
+		for _, L1 := range lengths(body, 2) {
+			idx++
+			if !h.Mine(idx) {
+				continue
+			}
+			for _, fault := range []string{"ctx", "ctx-send", "write"} {
+				for _, L2 := range []int{5, body - 1, body, body + 1} {
+					for _, us := range []bool{false, true} {
+						rot++
+						m1 := Msg{Lens: []int{L1}, Kinds: []int{rot % 2}, UseSend: us, Type: 15}
+						if L1 > 12 {
+							m1 = Msg{Lens: []int{L1 - 10, 10}, Kinds: []int{0, 1}, UseSend: us, Type: 15}
+						}
+						m2 := Msg{Lens: []int{L2}, Kinds: []int{1 - rot%2}, UseSend: !us, Type: 1}
+						if L2 < 6 {
+							m2.Kinds = []int{0}
+						}
+						run(Case{Size1: P, M1: m1, Size2: P, M2: &m2, Fault: fault})
+						h.Section("after-failed-flush", 1)
+					}
+				}
 			}
 		}
 	}
